@@ -69,6 +69,7 @@ class C10(PropBase):
         gb = Gen(rng, big=w.init["big"])  # byzantine peer (own encoder): text must be encodable here
         gb.odd_known = True
         gb.invalid_known = True
+        g.versions = gb.versions = True
         x = rng.random()
         if se.inbox and x < 0.3:
             bk, scr = policy.buf_kind(rng)
@@ -88,6 +89,9 @@ class C10(PropBase):
             if need_req and model.st != "CL":
                 mid = st.x["next_req"]
                 st.x["next_req"] += rng.choice([1, 1, 1, 2])
+                if model.out and rng.random() < 0.07:
+                    # a client that reuses the id of a request it has not had an answer to yet: still ONE open request
+                    mid = policy.pick_sorted(rng, model.out)
                 kind = None
                 if model.out:
                     kind = rng.choice(["SearchRequest", "ExtendedRequest", "SearchRequest", "ExtendedRequest", "BindRequest"])
@@ -296,7 +300,13 @@ class C10(PropBase):
                 if m == "search_result_done" and pre.kinds.get(a["id"]) != "SearchRequest":
                     st.hit("done_for_nonsearch_id")
         if not st.reach.get("mishandled_delivery_followed") and pre.st != "CL":
-            self.diverge_unless(ev, "call")
+            if ev.get("sync", True) and not ev.get("state_sync", True) and se.model.st == "CL":
+                # the call did what was expected on the wire but the session does not report the state the documented machine
+                # is in now (C08's statement).  C10 goes on with the documented state: after a termination nothing is
+                # outstanding any more, so whatever the session still lets through answers no open request
+                st.hit("state_mismatch_followed")
+            else:
+                self.diverge_unless(ev, "call")
 
     def nontrivial(self, st):
         return st.x["nontrivial"]
